@@ -24,3 +24,9 @@ package metadata
 // the two and make the persist write a snapshot without the new, acknowledged topic.
 //@ func (s *EtcdStore) CreateTopic
 //@   same_critical_section [C21.create_topic_updates_memory_and_etcd_in_one_critical_section] persistMu: CreateTopic, persistSnapshotLocked
+
+// EtcdStore.CreatePartitions / DeleteTopic: same for the other two admin operations that change the topic set.
+//@ func (s *EtcdStore) CreatePartitions
+//@   same_critical_section [C21.create_partitions_updates_memory_and_etcd_in_one_critical_section] persistMu: CreatePartitions, persistSnapshotLocked
+//@ func (s *EtcdStore) DeleteTopic
+//@   same_critical_section [C21.delete_topic_updates_memory_and_etcd_in_one_critical_section] persistMu: DeleteTopic, persistSnapshotLocked
